@@ -18,6 +18,10 @@ Clauses decided (one concrete spectrum + option cell = one "sub-case"):
  weights  |Z| multiplied by arbitrary factors on points outside the window / with zero custom weight (phase kept)
           -> identical reconstruction; |Z| multiplied by b on every point inside the window -> reconstruction * b
           everywhere (the offset is determined by, and only by, the weighted points).
+ twins    grid twins: within one process, the same named window (same centre/width) on a log-uniform grid and then on
+          warped / jittered grids and on differently masked copies of one data set that all share N and the first and
+          last frequency (plus a custom-weights control); every call is subject to the cp, scale and weights clauses
+          and to the support check of the hooked `_generate_weights` output.
  smooth   direct `_smooth_phase` calls: constant and linear sequences come back unchanged (TOL_SMOOTH) for every
           (smoother, num_points 1..11, polynomial_order 1..10) the smoother accepts.
  window   direct `_generate_weights` calls: shape, 0 <= w <= 1, zero outside [centre-width/2, centre+width/2],
@@ -298,6 +302,96 @@ def gen_ladder(rng, j, tier):
                 "num_iterations": int(rng.integers(1, 6))},
         "win": win, "rel": _relations(rng, n), "do_rel": bool(rng.random() < 0.25),
     }
+
+
+def gen_twins(rng, j):
+    """Grid twins: consecutive calls IN ONE PROCESS whose unmasked grids share the number of points and the first and
+    last frequency but differ in the interior (log-uniform, then warped / jittered; then the same data set with two
+    different interior points masked), all with the same named window (same centre/width) plus a custom-weights
+    control.  Any state the library keeps between calls that is keyed on less than the full grid shows up as weights
+    on the wrong points in the second call."""
+    cell = j % 32  # lowess excluded: the twin grids are irregular (see the module docstring)
+    sm, ip, adm = ["none", "modsinc", "savgol", "whithend"][cell % 4], INTERPS[(cell // 4) % 4], bool(cell // 16)
+    n = int(rng.integers(25, 81))
+    span = float(rng.uniform(3, 7))
+    lo = float(rng.uniform(-3, 7 - span))
+    u = np.linspace(0.0, 1.0, n)
+    lfA = lo + span * u
+    fA = 10.0 ** lfA
+    grids = [("regular", fA)]
+    for kind in (["warp2", "jitter"] if j % 2 == 0 else ["warp-half", "warp2"]):
+        if kind == "warp2":
+            lf = lo + span * u**2
+        elif kind == "warp-half":
+            lf = lo + span * u**0.5
+        else:
+            lf = lfA + np.concatenate([[0.0], rng.uniform(-0.45, 0.45, n - 2), [0.0]]) * (span / (n - 1))
+        f = 10.0**lf
+        f[0], f[-1] = fA[0], fA[-1]  # bit-identical end points
+        grids.append((kind, f))
+    # one named window for the whole sequence; its edges lie well inside the range so that the grids disagree about
+    # which indices are inside
+    name = "boxcar" if j % 3 == 0 else WINDOWS[(j // 3) % len(WINDOWS)]
+    width = float(rng.uniform(0.3, 0.5) * span)
+    center = float(lo + span * rng.uniform(0.4, 0.6))
+    named = {"kind": "named", "name": name, "center": center, "width": width}
+    model = _cp_model(rng, ELEMS[j % 5])
+    np_, order = _core_params(rng, sm)
+    opt = {"smoothing": sm, "interpolation": ip, "admittance": adm, "num_points": np_, "polynomial_order": order, "num_iterations": 3}
+    asc = bool(rng.random() < 0.5)
+
+    def sub(kind, f, mask, win):
+        ff = f if asc else f[::-1]
+        mm = [int(i) if asc else int(len(f) - 1 - i) for i in mask]
+        return {"clause": "cp", "model": model, "f": [float(x) for x in ff], "mask": sorted(mm), "grid": "twin:" + kind, "opt": opt,
+                "win": win, "rel": _relations(rng, len(f) - len(mask)), "do_rel": True}
+
+    subs = [sub(kind, f, [], named) for kind, f in grids]
+    # masked twins: n+1 points, one interior point masked on either side of the upper window edge
+    fD = 10.0 ** (lo + span * np.linspace(0.0, 1.0, n + 1))
+    e = int(np.argmin(np.abs(np.log10(fD) - (center + width / 2))))
+    i1, i2 = max(1, e - 3), min(n - 1, e + 3)
+    subs.append(sub("masked-a", fD, [i1], named))
+    subs.append(sub("masked-b", fD, [i2], named))
+    # control: custom weights (the indicator of the same window) on the warped grid
+    fB = grids[1][1]
+    ins = np.abs(np.log10(np.sort(fB)[::-1]) - center) <= width / 2
+    if ins.sum() >= 1:
+        subs.append(sub("control:" + grids[1][0], fB, [], {"kind": "custom", "pattern": "window-indicator", "weights": [float(x) for x in ins], "window_arg": "boxcar"}))
+    return subs
+
+
+def run_twins(case):
+    rng = np.random.default_rng(case["seed"])
+    subs = gen_twins(rng, case["j"])
+    out = {"evals": 0, "keys": [], "viol": [], "stats": {}, "maxobs": {}}
+    wit = {"replay_case": {"kind": "twinseq", "subs": subs}}
+    return _run_twin_subs(subs, out, wit)
+
+
+def _run_twin_subs(subs, out, wit):
+    for k, sub in enumerate(subs):
+        r = run_sub(sub)
+        out["evals"] += r["evals"]
+        if r["key"] is not None:
+            out["keys"].append(("twin", k) + tuple(r["key"]))
+        for v in r["viol"]:
+            v = dict(v, witness=wit, msg=f"[grid twin #{k} ({sub['grid']}) of a sequence sharing N and the end frequencies] " + v["msg"])
+            out["viol"].append(v)
+        _merge(out["stats"], r["stats"], lambda a, b: a + b)
+        _merge(out["maxobs"], r["maxobs"], max)
+        if k > 0 and sub["win"]["kind"] == "named":
+            out["stats"]["grid_twins"] = out["stats"].get("grid_twins", 0) + 1
+    seen, keep = set(), []
+    for v in out["viol"]:
+        if v["key"] not in seen:
+            seen.add(v["key"])
+            keep.append(v)
+    out["viol"] = keep
+    s0 = subs[1]
+    out["sample"] = {"kind": "grid-twins", "grids": [x["grid"] for x in subs], "n": len(s0["f"]), "f_first_last": [s0["f"][0], s0["f"][-1]],
+                     "window": {k: v for k, v in subs[0]["win"].items()}, "opt": s0["opt"], "model": s0["model"]}
+    return out
 
 
 # ------------------------------------------------------------------------------------------------
@@ -782,8 +876,8 @@ def run_weights(case):
 # runner API
 # ------------------------------------------------------------------------------------------------
 SIZES = {
-    "quick": {"cp_cases": 120, "cp_count": 10, "ladder": 160, "weights_cases": 4, "weights_count": 9, "extra_lengths": 1},
-    "thorough": {"cp_cases": 1200, "cp_count": 10, "ladder": 1200, "weights_cases": 24, "weights_count": 15, "extra_lengths": 4},
+    "quick": {"cp_cases": 120, "cp_count": 10, "ladder": 160, "weights_cases": 4, "weights_count": 9, "extra_lengths": 1, "twins": 32},
+    "thorough": {"cp_cases": 1200, "cp_count": 10, "ladder": 1200, "weights_cases": 24, "weights_count": 15, "extra_lengths": 4, "twins": 320},
 }
 
 
@@ -796,6 +890,8 @@ def gen_cases(tier, seed):
     for i in range(s["weights_cases"]):
         cases.append({"kind": "weights", "seed": [int(seed), 2, i], "count": s["weights_count"]})
     rot = (int(seed) * 7) % 40
+    for i in range(s["twins"]):
+        cases.append({"kind": "twins", "seed": [int(seed), 5, i], "j": rot + i})
     for i in range(s["cp_cases"]):
         cases.append({"kind": "cp", "seed": [int(seed), 3, i], "first": rot + i * s["cp_count"], "count": s["cp_count"]})
     for i in range(s["ladder"]):
@@ -831,6 +927,10 @@ def run_case(case):
             return {"evals": 1, "viol": [{"key": f"C11/weights-raised:{o['type']}:{o['func']}", "msg": monitors.tb_tail(w), "witness": {}}]}
         return {"evals": 1, "keys": ["weights1"],
                 "viol": [{"key": f"C11/weights:{s}", "msg": m, "witness": {}} for s, m in check_weights(case["lf"], case["name"], case["center"], case["width"], w)]}
+    if kind == "twins":
+        return run_twins(case)
+    if kind == "twinseq":
+        return _run_twin_subs(case["subs"], {"evals": 0, "keys": [], "viol": [], "stats": {}, "maxobs": {}}, {"replay_case": case})
     if kind == "one":
         r = run_sub(case["sub"])
         return {"evals": r["evals"], "keys": [r["key"]] if r["key"] else [], "viol": r["viol"], "stats": r["stats"], "maxobs": r["maxobs"]}
@@ -890,6 +990,8 @@ def finalize(agg):
     for name in ("weights:zero-perturb:named", "weights:zero-perturb:custom", "weights:weighted-scale:named", "weights:weighted-scale:custom"):
         if stats.get(name, 0) == 0:
             inc.append(f"relation {name} never evaluated")
+    if stats.get("grid_twins", 0) == 0:
+        inc.append("no grid-twin sequence (same N and end frequencies, different interior, same named window, one process) was executed")
     if stats.get("harness-hook-error", 0) > 0:
         inc.append(f"{stats['harness-hook-error']} hook evaluation(s) failed inside the harness")
     if mon.get("hook:_smooth_phase:constant-input", 0) == 0 or mon.get("hook:_generate_weights", 0) == 0:
